@@ -6,6 +6,9 @@ coq/Corr/DecoCorr.v:spec_ok) on what the implementation did to the class diction
 import dataclasses
 import json
 import keyword
+import os
+import sys
+import traceback
 import types
 import typing
 
@@ -75,9 +78,24 @@ def default_for(ty):
     return {"int": 3, "str": "d", "any": None, "list": [1], "rawlist": [], "dict": {"a": 1}, "set": {1}}.get(ty)
 
 
+# every class description built in this process, in order (what a later class may be influenced by
+# if the library keeps state between decorations)
+BUILT = []
+
+
+def slim(desc):
+    return {"attrs": desc["attrs"], "cfg": desc["cfg"], "occupied": desc.get("occupied", [])}
+
+
+def names_of(desc):
+    c = desc["cfg"]
+    return {a["name"] for a in desc["attrs"]} | set(c.get("attrs") or []) | {p[0] for p in (c.get("attrs_typed") or [])}
+
+
 def build_class(desc):
     """desc -> (undecorated class, decorator kwargs)"""
     w = world()
+    BUILT.append(slim(desc))
     ns, ann = {}, {}
     for a in desc["attrs"]:
         if a["ty"] != "noann":
@@ -178,9 +196,18 @@ for _k, _ck in (("Sequence", "CSeq"), ("Mapping", "CMap"), ("Set", "CSet")):
 EPREFIX = {"EWith": "with_", "EUpdate": "update_", "ETransform": "transform_", "EWithout": "without_"}
 
 
+def lib_str(x):
+    """a name handed out by the library (item name, method name, attribute name).  Anything but a
+    plain printable str is rendered as a marker no identifier can be equal to, so that the oracle
+    judges it (a helper named after `False` is a wrong name, not a reason for the harness to stop)"""
+    if isinstance(x, str) and x.isascii() and x.isprintable() and '"' not in x:
+        return x
+    r = "".join(ch if (ch.isascii() and ch.isprintable() and ch != '"') else "?" for ch in repr(x))[:60]
+    return f"<{type(x).__name__}:{r}>"
+
+
 def cs(s):
-    assert '"' not in s
-    return '"' + s + '"'
+    return '"' + lib_str(s) + '"'
 
 
 def gen_term(tag, attr, nm):
@@ -190,6 +217,7 @@ def gen_term(tag, attr, nm):
         return f"(GTop {tag[1]})"
     if tag[0] == "C":
         return f"(GCore {tag[1]})"
+    nm = lib_str(nm)
     item = nm[len(EPREFIX[tag[1]]):] if nm.startswith(EPREFIX[tag[1]]) else "?" + nm
     return f"(GElem {tag[1]} {cs(attr)} {tag[2]} {cs(item)})"
 
@@ -256,9 +284,58 @@ def aty_of(ty):
     return f"(TColl {COLL[ty]})" if ty in COLL else "TScalar"
 
 
+_SPEC_ENGINE = None
+
+
+def spec_singular(n):
+    """the specification's singular function: inflect asked directly, with an engine of the harness's
+    own (same defaults as the library's), so the answer for a name never depends on which classes
+    were decorated before"""
+    global _SPEC_ENGINE
+    if _SPEC_ENGINE is None:
+        import inflect
+        _SPEC_ENGINE = inflect.engine()
+    try:
+        r = _SPEC_ENGINE.singular_noun(n)
+    except BaseException:
+        r = False
+    return r if isinstance(r, str) and r else None
+
+
+def spec_item(a):
+    """documented element-helper stem of a collection attribute when nothing collides"""
+    s_ = spec_singular(a)
+    return s_ if (s_ and s_ != a) else a + "_item"
+
+
+def run_other(e):
+    """decorate (own decorator object), bootstrap and, if asked, instantiate + use another class"""
+    w = world()
+    try:
+        c, kw = build_class(e)
+        c = w.spec_class(**kw)(c)
+        c.__spec_class__
+        if e.get("use"):
+            try:
+                c()
+            except BaseException as ex:
+                if isinstance(ex, (KeyboardInterrupt, SystemExit)):
+                    raise
+            for n in list(c.__dict__):
+                try:
+                    getattr(c, n)
+                except BaseException as ex:
+                    if isinstance(ex, (KeyboardInterrupt, SystemExit)):
+                        raise
+        return c
+    except BaseException as ex:
+        if isinstance(ex, (KeyboardInterrupt, SystemExit)):
+            raise
+        return None
+
+
 def observe(desc):
     """run the implementation on a class description; returns the observation dict"""
-    from spec_classes.utils.naming import INFLECT_ENGINE
     w = world()
     names = {a["name"] for a in desc["attrs"]} | set(desc["cfg"].get("attrs") or []) | \
         {n for n, _ in (desc["cfg"].get("attrs_typed") or [])}
@@ -267,17 +344,18 @@ def observe(desc):
             names.add(x)
     sing = {}
     for n in sorted(names):
-        try:
-            r = INFLECT_ENGINE.singular_noun(n)
-        except BaseException:
-            r = False
-        sing[n] = r if isinstance(r, str) else None
+        sing[n] = spec_singular(n)
+    hist_pos = len(BUILT)
+    # classes decorated earlier in the same process, each with its own decorator object: the
+    # specification (and the model) decorate `cls` alone, whatever happened before
+    for e in desc.get("earlier") or []:
+        run_other(e)
     cls, kw = build_class(desc)
     before = dict(cls.__dict__)
     uid = {n: i + 1 for i, n in enumerate(before)}
     body = [(n, member_kind(o), uid[n]) for n, o in before.items()]
     obs = {"sing": sing, "body": body, "outcome": 0, "after": [], "used": [], "attrs": [], "annots": [],
-           "inst": False, "uses": []}
+           "inst": False, "uses": [], "hist_pos": hist_pos}
     try:
         deco = w.spec_class(**kw)
         if desc.get("prior"):
@@ -297,6 +375,9 @@ def observe(desc):
         # what the class dictionary looks like after the failed decoration (no user code may be gone)
         obs["after"] = [(n, classify(n, o, before, uid)) for n, o in dict(cls.__dict__).items()]
         return obs
+    # classes decorated after this one (before it is first instantiated / used) must not change it either
+    for e in desc.get("later") or []:
+        run_other(e)
     snap = dict(cls.__dict__)
     obs["after"] = [(n, classify(n, o, before, uid)) for n, o in snap.items()]
     if desc.get("inst", True):
@@ -516,6 +597,78 @@ def variants(desc, rng, per_name=None, falsy=None):
     return out
 
 
+# Several independently decorated classes in one process using the SAME attribute names.  The
+# library keeps process-wide tables keyed by attribute name (the singular-form cache), so what it
+# does for the second class must be observed, not inferred from the first.  Names: without a
+# singular form (inflect answers False: `info`, `config`, ...), equal to their singular form
+# (`sheep`, `series`, `news`: the `<attr>_item` fallback as well) and ordinary plurals.
+SEQ_WORDS = ["info", "config", "mapping", "x", "y", "sheep", "series", "news", "cfg", "status", "payload", "schema",
+             "cache", "meta", "extra", "memo", "queue", "index", "registry", "lookup", "equipment", "child", "entry",
+             "value", "tags", "values", "boxes", "options", "params", "data", "kwargs", "metadata", "indices"]
+SEQ_FIXED = [
+    [{"attrs": [{"name": "info", "ty": "list", "decl": "none"}, {"name": "config", "ty": "dict", "decl": "none"},
+                {"name": "tags", "ty": "list", "decl": "none"}, {"name": "level", "ty": "int", "decl": "value"}],
+      "cfg": {"lazy": False}}] * 2,
+    [{"attrs": [{"name": "sheep", "ty": "set", "decl": "none"}, {"name": "x", "ty": "list", "decl": "value"}], "cfg": {}},
+     {"attrs": [{"name": "x", "ty": "dict", "decl": "none"}, {"name": "sheep", "ty": "list", "decl": "attr_factory"}],
+      "cfg": {"lazy": False}}],
+    # the name is a scalar in the first class and a collection in the second
+    [{"attrs": [{"name": "mapping", "ty": "int", "decl": "none"}], "cfg": {}},
+     {"attrs": [{"name": "mapping", "ty": "dict", "decl": "none"}], "cfg": {}}],
+    # second class names the attribute through attrs_typed only
+    [{"attrs": [{"name": "info", "ty": "list", "decl": "none"}], "cfg": {}},
+     {"attrs": [], "cfg": {"attrs_typed": [("info", "set")]}}],
+]
+
+
+def no_singular(word):
+    r = spec_singular(word)
+    return r is None or r == word
+
+
+def sequence_cases(rng, quick):
+    """chains of 2-3 classes sharing collection attribute names; each class but the first is a case
+    with the classes before it as `earlier`, and the first one a case with the others as `later`"""
+    nos = [w for w in SEQ_WORDS if no_singular(w)]
+    sing = [w for w in SEQ_WORDS if not no_singular(w)]
+    ctys = ["list", "dict", "set", "rawlist", "list_nested", "klist"]
+    chains = []
+    for ch in SEQ_FIXED:
+        chains.append([{"attrs": json.loads(json.dumps(c["attrs"])), "cfg": base_cfg(**c["cfg"])} for c in ch])
+    for _ in range(22 if quick else 220):
+        shared = rng.sample(nos, rng.choice([1, 1, 2])) + rng.sample(sing, rng.choice([0, 1]))
+        chain = []
+        for j in range(rng.choice([2, 2, 3])):
+            attrs = []
+            for k, nm in enumerate(shared):
+                ty = rng.choice(ctys) if (k == 0 or rng.random() < 0.8) else rng.choice(SCALAR_TYS)
+                decl = rng.choice(["none", "none", "value", "attr_factory"])
+                if decl == "value" and default_for(ty) is None:
+                    decl = "none"
+                if decl == "attr_factory" and ty not in ("list", "rawlist"):
+                    decl = "none"
+                attrs.append({"name": nm, "ty": ty, "decl": decl})
+            for nm in rng.sample([w for w in WORDS if w not in shared], rng.randint(0, 2)):
+                attrs.append({"name": nm, "ty": rng.choice(ALL_TYS), "decl": "none"})
+            rng.shuffle(attrs)
+            c = base_cfg(lazy=rng.random() < 0.5)
+            if rng.random() < 0.2:    # the shared names come through attrs_typed instead of annotations
+                c["attrs_typed"] = [(a["name"], a["ty"]) for a in attrs if a["name"] in shared]
+                attrs = [a for a in attrs if a["name"] not in shared]
+            chain.append({"attrs": attrs, "cfg": c})
+        chains.append(chain)
+    out = []
+    for chain in chains:
+        for j in range(1, len(chain)):
+            d = dict(json.loads(json.dumps(chain[j])), occupied=[], inst=True,
+                     earlier=[dict(json.loads(json.dumps(e)), occupied=[], use=rng.random() < 0.5) for e in chain[:j]])
+            out.append((d, "sequence"))
+        d = dict(json.loads(json.dumps(chain[0])), occupied=[], inst=True,
+                 later=[dict(json.loads(json.dumps(e)), occupied=[], use=rng.random() < 0.5) for e in chain[1:]])
+        out.append((d, "sequence_later"))
+    return out, {"sequence_chains": len(chains), "sequence_words_without_singular": len(nos)}
+
+
 def generate(rng, tier):
     quick = tier == "quick"
     cases = []
@@ -578,7 +731,9 @@ def generate(rng, tier):
         if rng.random() < 0.3:
             d["attrs"].reverse()
         cases.append((d, "collision"))
-    return cases, {"same_singular_pairs_found": len(same), "plural_singular_pairs_found": len(withname)}
+    seq, seqfound = sequence_cases(rng, quick)
+    cases += seq
+    return cases, {"same_singular_pairs_found": len(same), "plural_singular_pairs_found": len(withname), **seqfound}
 
 
 # ------------------------------------------------------------------ hierarchies: first use through a subclass / super()
@@ -755,6 +910,143 @@ def hier_collision_run(case):
     return fails
 
 
+# a spec subclass RE-DECLARING an inherited collection attribute (new default / new type => a new
+# Attr, new helpers on the subclass), optionally next to a sibling class using the same name.
+# Implementation-only probe, oracle in Python = the property statement: the subclass's dictionary
+# gains exactly update/transform/reset, with_/update_/transform_/reset_<a> for the attributes it
+# declares and with_/update_/transform_/without_<item> for those of list/dict/set type, <item> the
+# singular form (spec_singular, asked per class) or <a>_item; each name holds the helper of that
+# attribute; the parent's dictionary and item names are untouched; the element helpers work.
+RD_TYPES = {"list": "List[int]", "dict": "Dict[str, int]", "set": "Set[int]"}
+RD_DEFAULT = {"list": "[7]", "dict": "{'k': 7}", "set": "{7}"}
+
+
+def helper_info(obj):
+    """(group, kind, attribute name, method name) of a generated helper, else None"""
+    from spec_classes.methods.base import MethodDescriptor
+    if isinstance(obj, MethodDescriptor):
+        tag = DESC_CLASSES.get(type(obj).__name__)
+        if tag is None:
+            return None
+        return (tag[0], tag[1], lib_str(getattr(getattr(obj, "attr_spec", None), "name", "")), lib_str(obj.name))
+    if isinstance(obj, types.FunctionType):
+        impl = obj.__globals__.get("implementation")
+        if impl is not None and "validate_attrs" in obj.__globals__:
+            f = getattr(impl, "func", impl)
+            tag = IMPL_FUNCS.get(getattr(f, "__name__", ""))
+            if tag is not None and tag[0] in "SET":
+                args = getattr(impl, "args", ())
+                attr = getattr(args[0], "name", "") if args and tag[0] in "SE" else ""
+                return (tag[0], tag[1], lib_str(attr), obj.__name__)
+    return None
+
+
+def redeclare_source(case):
+    imp = "from typing import Dict, List, Set\nfrom spec_classes import spec_class\n\n"
+
+    def deco(lazy):
+        return "@spec_class" if lazy else "@spec_class(bootstrap=True)"
+    a = case["attr"]
+    src = imp + f"{deco(case['lazy_p'])}\nclass P:\n    {a}: {RD_TYPES[case['ty']]}\n    level: int = 0\n\n"
+    if case.get("sibling"):
+        src += f"{deco(case['lazy_s'])}\nclass Q:\n    {a}: {RD_TYPES[case['ty2']]}\n\n"
+    src += f"{deco(case['lazy_s'])}\nclass S(P):\n    {a}: {RD_TYPES[case['ty2']]}" + \
+        (f" = {RD_DEFAULT[case['ty2']]}" if case["default"] else "") + "\n"
+    if case.get("extra"):
+        src += f"    {case['extra']}: {RD_TYPES[case['ty']]}\n"
+    return src
+
+
+def redeclare_run(case):
+    """-> {"fails": [...], "observed": {...}, "expected": {...}}"""
+    a, extra = case["attr"], case.get("extra")
+    ns = {}
+    exec(compile(redeclare_source(case), "<c16-redeclare>", "exec"), ns)
+    P, S, Q = ns["P"], ns["S"], ns.get("Q")
+    fails = []
+    try:
+        P.__spec_class__
+        if case["use_parent_first"]:
+            P()
+            for n in list(P.__dict__):
+                if not n.startswith("__"):
+                    getattr(P, n)
+        p_names = sorted(n for n in P.__dict__ if not n.startswith("__"))
+        p_item = P.__spec_class__.attrs[a].item_name
+        classes = [("S", S, [a] + ([extra] if extra else []))] + ([("Q", Q, [a])] if Q is not None else [])
+        for _, K, _ in classes[::-1]:
+            K.__spec_class__
+    except BaseException as e:
+        if isinstance(e, (KeyboardInterrupt, SystemExit)):
+            raise
+        return {"fails": [f"decoration raised {type(e).__name__}: {e}"[:200]], "observed": {}, "expected": {}}
+    observed, expected = {}, {}
+    skipn = {a, "level", extra}
+    p_names = [n for n in p_names if n not in skipn]
+    p_exp = sorted({"update", "transform", "reset"} | {f"{p}_{x}" for x in (a, "level") for p in ("with", "update", "transform", "reset")}
+                   | {f"{p}_{spec_item(a)}" for p in ("with", "update", "transform", "without")})
+    observed["P"], expected["P"] = p_names, p_exp
+    if p_names != p_exp:
+        fails.append(f"P: names only observed {sorted(set(p_names) - set(p_exp))}, only documented {sorted(set(p_exp) - set(p_names))}")
+    for label, K, own in classes:
+        want = {"update": ("T", "TUpdate", ""), "transform": ("T", "TTransform", ""), "reset": ("T", "TReset", "")}
+        for x in own:
+            for pfx, kd in (("with", "SWith"), ("update", "SUpdate"), ("transform", "STransform"), ("reset", "SReset")):
+                want[f"{pfx}_{x}"] = ("S", kd, x)
+            for pfx, kd in (("with", "EWith"), ("update", "EUpdate"), ("transform", "ETransform"), ("without", "EWithout")):
+                want[f"{pfx}_{spec_item(x)}"] = ("E", kd, x)
+        got = {n: helper_info(o) for n, o in K.__dict__.items() if not n.startswith("__") and n not in own}
+        observed[label], expected[label] = sorted(got), sorted(want)
+        if sorted(got) != sorted(want):
+            fails.append(f"{label}: helper names only observed {sorted(set(got) - set(want))}, only documented {sorted(set(want) - set(got))}")
+        for n, w_ in want.items():
+            g = got.get(n)
+            if n in got and (g is None or g[:3] != w_):
+                fails.append(f"{label}.{n} holds {g}, documented: helper {w_[1]} of {w_[2]!r}")
+        for x in own:
+            it = K.__spec_class__.attrs[x].item_name
+            if it != spec_item(x):
+                fails.append(f"{label}.__spec_class__.attrs[{x!r}].item_name is {it!r}, documented {spec_item(x)!r}")
+    p_now = sorted(n for n in P.__dict__ if not n.startswith("__") and n not in skipn)
+    if P.__spec_class__.attrs[a].item_name != p_item or p_now != p_names:
+        fails.append(f"the parent changed: item name {p_item!r} -> {P.__spec_class__.attrs[a].item_name!r}, names {p_names} -> {p_now}")
+    # the documented names do what they say (on the subclass: its own re-declared attribute)
+    elem = {"list": (3,), "dict": ("z", 3), "set": (3,)}
+    try:
+        for label, K, own in classes:
+            inst = K(**{x: {"list": [], "dict": {}, "set": set()}[case["ty2"] if x == a else case["ty"]] for x in own})
+            for x in own:
+                t = case["ty2"] if x == a else case["ty"]
+                r = getattr(inst, f"with_{spec_item(x)}")(*elem[t])
+                if len(getattr(r, x)) != 1 or len(getattr(inst, x)) != 0:
+                    fails.append(f"{label}().with_{spec_item(x)}{elem[t]} gave {getattr(r, x)!r}")
+                r2 = getattr(r, f"without_{spec_item(x)}")(*((0,) if t == "list" else (elem[t][0],)), **({"_by_index": True} if t == "list" else {}))
+                if len(getattr(r2, x)) != 0:
+                    fails.append(f"{label}().without_{spec_item(x)} left {getattr(r2, x)!r}")
+    except BaseException as e:
+        if isinstance(e, (KeyboardInterrupt, SystemExit)):
+            raise
+        fails.append(f"element helper call failed: {type(e).__name__}: {e}"[:200])
+    return {"fails": fails, "observed": observed, "expected": expected}
+
+
+def redeclare_generate(rng, tier):
+    quick = tier == "quick"
+    nos = [w for w in SEQ_WORDS if no_singular(w) and w not in ("level",)]
+    sing = [w for w in SEQ_WORDS if not no_singular(w)]
+    out = []
+    for a in nos + sing:
+        combos = [(ty, ty2, dflt, sib, ex) for ty in RD_TYPES for ty2 in RD_TYPES for dflt in (True, False)
+                  for sib in (False, True) for ex in (False, True) if dflt or ty2 != ty or ex]
+        for ty, ty2, dflt, sib, ex in (rng.sample(combos, 2) if quick else combos):
+            extra = None
+            if ex:
+                extra = rng.choice([w for w in nos if len({a, w, "level", spec_item(a), spec_item(w)}) == 5])
+            out.append({"attr": a, "ty": ty, "ty2": ty2, "default": dflt, "sibling": sib, "extra": extra,
+                        "lazy_p": rng.random() < 0.5, "lazy_s": rng.random() < 0.5, "use_parent_first": rng.random() < 0.5})
+    return out
+
+
 def hier_collision_generate():
     return [{"plural": p, "singular": s_, "ty": ty, "lazy": lz, "use_parent_first": up}
             for p, s_ in COLL_PAIRS for ty in ("list", "dict", "set") for lz in (False, True) for up in (False, True)]
@@ -776,63 +1068,225 @@ def hier_generate(rng, tier):
     return out
 
 
+# ------------------------------------------------------------------ fresh processes
+class Fresh:
+    """Observations made in processes forked from ONE pristine state: spec_classes imported, World
+    built, no other class ever decorated.  The library keeps process-wide state (inflect cache, type
+    caches, ...): a case observed here depends on nothing but its own description (which lists the
+    classes decorated before/after it), so a stored replay re-executes exactly (`--replay` goes
+    through the same path).  A server process is forked before anything else happens; it forks one
+    child per request item."""
+
+    def __init__(self):
+        world()
+        sys.stdout.flush()
+        sys.stderr.flush()
+        req_r, req_w = os.pipe()
+        res_r, res_w = os.pipe()
+        pid = os.fork()
+        if pid == 0:
+            try:
+                os.close(req_w)
+                os.close(res_r)
+                self._serve(os.fdopen(req_r, "r"), os.fdopen(res_w, "w"))
+            finally:
+                os._exit(0)
+        os.close(req_r)
+        os.close(res_w)
+        self.pid, self.out, self.inp = pid, os.fdopen(req_w, "w"), os.fdopen(res_r, "r")
+
+    @staticmethod
+    def _one(kind, payload):
+        try:
+            if kind == "observe":
+                return observe(fix_desc(payload))
+            if kind == "redeclare":
+                return redeclare_run(payload)
+            return {"harness_error": "unknown request " + kind}
+        except BaseException as e:
+            if isinstance(e, (KeyboardInterrupt, SystemExit)):
+                raise
+            return {"harness_error": traceback.format_exc()[-1500:]}
+
+    def _serve(self, rd, wr):
+        width = max(1, int(os.environ.get("VERIF_JOBS", "4")))
+        for line in rd:
+            kind, items = json.loads(line)
+            results = []
+            for k in range(0, len(items), width):
+                kids = []
+                for it in items[k:k + width]:
+                    r, w_ = os.pipe()
+                    pid = os.fork()
+                    if pid == 0:
+                        try:
+                            os.close(r)
+                            with os.fdopen(w_, "w") as fh:
+                                json.dump(self._one(kind, it), fh, default=str)
+                        finally:
+                            os._exit(0)
+                    os.close(w_)
+                    kids.append((pid, r))
+                for pid, r in kids:
+                    with os.fdopen(r, "r") as fh:
+                        txt = fh.read()
+                    os.waitpid(pid, 0)
+                    try:
+                        results.append(json.loads(txt))
+                    except ValueError:
+                        results.append({"harness_error": "child died: " + txt[-300:]})
+            wr.write(json.dumps(results) + "\n")
+            wr.flush()
+
+    def run(self, kind, items):
+        if not items:
+            return []
+        self.out.write(json.dumps([kind, items], default=str) + "\n")
+        self.out.flush()
+        return json.loads(self.inp.readline())
+
+    def close(self):
+        try:
+            self.out.close()
+            os.waitpid(self.pid, 0)
+        except OSError:
+            pass
+
+
+_FRESH = None
+
+
+def fresh():
+    global _FRESH
+    if _FRESH is None:
+        _FRESH = Fresh()
+    return _FRESH
+
+
 # ------------------------------------------------------------------ check
-def evaluate(descs, tag="c"):
-    terms, obss = [], []
-    for d in descs:
-        o = observe(d)
-        obss.append(o)
-        terms.append(c_case(d, o))
+def evaluate(descs, tag="c", use_fresh=False):
+    """-> (bad, logs, observations).  A description the harness itself cannot observe or encode is
+    reported as (index, 9) with obs["harness_error"]; it never stops the run."""
+    if use_fresh:
+        obss = fresh().run("observe", descs)
+    else:
+        obss = []
+        for d in descs:
+            try:
+                obss.append(observe(d))
+            except BaseException as e:
+                if isinstance(e, (KeyboardInterrupt, SystemExit)):
+                    raise
+                obss.append({"harness_error": traceback.format_exc()[-1500:]})
+    terms, index, broken = [], [], []
+    for i, (d, o) in enumerate(zip(descs, obss)):
+        if "harness_error" not in o:
+            try:
+                terms.append(c_case(d, o))
+                index.append(i)
+                continue
+            except BaseException as e:
+                if isinstance(e, (KeyboardInterrupt, SystemExit)):
+                    raise
+                o["harness_error"] = traceback.format_exc()[-1500:]
+        broken.append((i, 9))
     bad, logs = coq_eval("C16", PRELUDE, "check_case", terms, shard=40, tag=tag, case_type="case")
-    return bad, logs, obss
+    return [(index[i], c) for i, c in bad] + broken, logs, obss
 
 
-def shrink(desc, code):
+def _mutations(cur, top=True):
+    """smaller variants of one class description"""
+    out = []
+    for j in range(len(cur["attrs"])):
+        d = json.loads(json.dumps(cur))
+        del d["attrs"][j]
+        out.append(d)
+    if top and cur.get("prior"):
+        d = json.loads(json.dumps(cur))
+        del d["prior"]
+        out.append(d)
+    for j in range(len(cur.get("occupied") or [])):
+        d = json.loads(json.dumps(cur))
+        del d["occupied"][j]
+        out.append(d)
+    for f, v in (("key", None), ("attrs", None), ("attrs_typed", None), ("attrs_skip", None), ("overflow", None),
+                 ("init", True), ("repr", True), ("eq", True), ("lazy", False)):
+        if cur["cfg"].get(f) != v:
+            d = json.loads(json.dumps(cur))
+            d["cfg"][f] = v
+            out.append(d)
+    for j, a in enumerate(cur["attrs"]):
+        if a.get("decl", "none") != "none":
+            d = json.loads(json.dumps(cur))
+            d["attrs"][j]["decl"] = "none"
+            out.append(d)
+    if not top and cur.get("use"):
+        d = json.loads(json.dumps(cur))
+        d["use"] = False
+        out.append(d)
+    return out
+
+
+def shrink(desc, code, rounds=10):
+    """greedy shrinking; every candidate is observed in a fresh process (see Fresh)"""
     cur = json.loads(json.dumps(desc))
-    for _ in range(10):
-        cands = []
-        for j in range(len(cur["attrs"])):
-            d = json.loads(json.dumps(cur))
-            del d["attrs"][j]
-            cands.append(d)
-        if cur.get("prior"):
-            d = json.loads(json.dumps(cur))
-            del d["prior"]
-            cands.append(d)
-        for j in range(len(cur.get("occupied", []))):
-            d = json.loads(json.dumps(cur))
-            del d["occupied"][j]
-            cands.append(d)
-        for f, v in (("key", None), ("attrs", None), ("attrs_typed", None), ("attrs_skip", None), ("overflow", None),
-                     ("init", True), ("repr", True), ("eq", True), ("lazy", False)):
-            if cur["cfg"].get(f) != v:
-                d = json.loads(json.dumps(cur))
-                d["cfg"][f] = v
-                cands.append(d)
-        for j, a in enumerate(cur["attrs"]):
-            if a.get("decl", "none") != "none":
-                d = json.loads(json.dumps(cur))
-                d["attrs"][j]["decl"] = "none"
-                cands.append(d)
+
+    def still(cands):
+        bad, _, _ = evaluate(cands, tag="s", use_fresh=True)
+        hit = [i for i, c in bad if c == code]
+        return cands[min(hit)] if hit else None
+    # the classes decorated before / after: first try without, then one alone, then halves
+    for side in ("later", "earlier"):
+        lst = cur.get(side) or []
+        if not lst:
+            cur.pop(side, None)
+            continue
+        got = still([{k: v for k, v in cur.items() if k != side}] + [dict(cur, **{side: [e]}) for e in lst[:60]])
+        if got is not None:
+            cur = got
+            continue
+        while len(cur[side]) > 2:
+            h = len(cur[side]) // 2
+            got = still([dict(cur, **{side: cur[side][h:]}), dict(cur, **{side: cur[side][:h]})])
+            if got is None:
+                break
+            cur = got
+    for _ in range(rounds):
+        cands = _mutations(cur)
+        for side in ("earlier", "later"):
+            lst = cur.get(side) or []
+            if len(lst) > 4:
+                continue
+            for j, e in enumerate(lst):
+                cands.append(dict(cur, **{side: lst[:j] + lst[j + 1:]}))
+                for m in _mutations(e, top=False):
+                    cands.append(dict(cur, **{side: lst[:j] + [m] + lst[j + 1:]}))
         if not cands:
             break
-        bad, _, _ = evaluate(cands, tag="s")
-        hit = [i for i, c in bad if c == code]
-        if not hit:
+        got = still(cands)
+        if got is None:
             break
-        cur = cands[min(hit)]
+        cur = got
+    for side in ("earlier", "later"):
+        if not cur.get(side):
+            cur.pop(side, None)
     return cur
 
 
 def fix_desc(d):
     if d["cfg"].get("attrs_typed") is not None:
         d["cfg"]["attrs_typed"] = [tuple(p) for p in d["cfg"]["attrs_typed"]]
+    for side in ("earlier", "later"):
+        for e in d.get(side) or []:
+            fix_desc(e)
     return d
 
 
-def explain(desc, tag="x"):
-    """which parts of the oracle reject"""
-    o = observe(desc)
+def explain(desc, tag="x", obs=None):
+    """which parts of the oracle reject (observation made in a fresh process unless given)"""
+    o = obs if obs is not None else fresh().run("observe", [desc])[0]
+    if "harness_error" in o:
+        return ["harness_error"]
     if o["outcome"] != 0:
         return ["raise_not_justified"]
     bad, logs = coq_eval("C16", PRELUDE, "spec_fail_bits", [c_case(desc, o)], tag=tag, case_type="case")
@@ -844,10 +1298,212 @@ def explain(desc, tag="x"):
     return [p for i, p in enumerate(parts) if (v >> i) & 1]
 
 
+def explain_many(pairs, tag="g"):
+    """explain for several (description, observation) pairs with one Coq evaluation"""
+    out = [None] * len(pairs)
+    terms, idx = [], []
+    for k, (d, o) in enumerate(pairs):
+        if "harness_error" in o:
+            out[k] = ["harness_error"]
+        elif o["outcome"] != 0:
+            out[k] = ["raise_not_justified"]
+        else:
+            terms.append(c_case(d, o))
+            idx.append(k)
+    parts = ["user_after", "user_used", "decl_after", "decl_used", "helpers_after", "helpers_used",
+             "specnames_after", "specnames_used", "private_after", "private_used", "item_rule"]
+    bad, _ = coq_eval("C16", PRELUDE, "spec_fail_bits", terms, shard=40, tag=tag, case_type="case") if terms else ([], [])
+    bits = dict(bad)
+    for j, k in enumerate(idx):
+        v = bits.get(j, 0)
+        out[k] = [p for i, p in enumerate(parts) if (v >> i) & 1]
+    return out
+
+
+# ------------------------------------------------------------------ reports: class sources, helper names
+TY_SRC = {"int": "int", "str": "str", "any": "Any", "nested": "Nested", "list": "List[int]", "rawlist": "list",
+          "dict": "Dict[str, int]", "set": "Set[int]", "list_nested": "List[Nested]", "dict_nested": "Dict[str, Nested]",
+          "klist": "KeyedList[KeyedNested, str]", "kset": "KeyedSet[KeyedNested, str]"}
+OCC_SRC = {"function": "def {n}(self, *a, **k): return None", "staticmethod": "{n} = staticmethod(lambda *a, **k: None)",
+           "classmethod": "{n} = classmethod(lambda cls, *a, **k: None)", "property": "{n} = property(lambda self: 5)",
+           "value": "{n} = 7", "none": "{n} = None", "zero": "{n} = 0", "false": "{n} = False", "empty_str": "{n} = ''",
+           "empty_tuple": "{n} = ()"}
+
+
+def class_source(desc, name="K", bases="", deco=None, note=""):
+    """Python source of the class a description stands for (for reports; build_class is what runs)"""
+    c = desc["cfg"]
+    kw = []
+    for f in ("init", "repr", "eq"):
+        if not c.get(f, True):
+            kw.append(f"{f}=False")
+    if not c.get("lazy", True):
+        kw.append("bootstrap=True")
+    for f, k in (("key", "key"), ("attrs", "attrs"), ("attrs_skip", "attrs_skip"), ("overflow", "init_overflow_attr")):
+        if c.get(f) is not None:
+            kw.append(f"{k}={c[f]!r}")
+    if c.get("attrs_typed") is not None:
+        kw.append("attrs_typed={" + ", ".join(f"{n!r}: {TY_SRC[t]}" for n, t in c["attrs_typed"]) + "}")
+    lines = [deco or f"@spec_class({', '.join(kw)})", f"class {name}{bases}:" + (f"   # {note}" if note else "")]
+    for a in desc["attrs"]:
+        d = a.get("decl", "none")
+        dv = default_for(a["ty"])
+        rhs = {"none": None, "value": repr(dv), "attr": f"Attr(default={dv!r})", "attr_nodefault": "Attr()",
+               "attr_factory": "Attr(default_factory=list)", "field": f"dataclasses.field(default={dv!r})",
+               "field_nodefault": "dataclasses.field()", "property": "property(lambda self: 1)",
+               "method": "lambda self: 1"}.get(d)
+        ann = "" if a["ty"] == "noann" else ": " + TY_SRC[a["ty"]]
+        if ann or rhs:
+            lines.append(f"    {a['name']}{ann}" + (f" = {rhs}" if rhs else ""))
+    for o in desc.get("occupied") or []:
+        lines.append("    " + OCC_SRC.get(o["kind"], "{n} = 7").format(n=o["name"]))
+    if len(lines) == 2:
+        lines.append("    pass")
+    return "\n".join(lines)
+
+
+def sources(desc):
+    out = ["# from typing import *; from spec_classes import spec_class, Attr; from spec_classes.types import KeyedList, KeyedSet",
+           "# Nested / KeyedNested: see harness/c16.py:World; every class is bootstrapped (cls.__spec_class__) right after decoration"]
+    for j, e in enumerate(desc.get("earlier") or []):
+        out.append(class_source(e, f"Earlier{j + 1}", note="then instantiated and every name looked up" if e.get("use") else ""))
+    if desc.get("prior"):
+        out.append("deco = spec_class(...)  # as below; first applied to:")
+        out.append(class_source(dict(desc["prior"], cfg=desc["cfg"]), "Prior", deco="@deco"))
+    out.append(class_source(desc, "K", deco="@deco" if desc.get("prior") else None, note="<- the class judged"))
+    for j, e in enumerate(desc.get("later") or []):
+        out.append(class_source(e, f"Later{j + 1}", note="decorated before K is first instantiated / used"))
+    return "\n\n".join(out)
+
+
+def helper_names(desc, obs):
+    """observed public helper names of the judged class next to the documented ones.  The documented
+    element names are given for the no-collision case (the verdict is Coq's: DecoSpec.item_rule on the
+    observed table; this listing is for the reader)"""
+    observed = sorted(n for n, t in obs.get("after", []) if t.startswith(("G (GScalar", "G (GElem", "G (GTop")))
+    occupied = {o["name"] for o in desc.get("occupied") or []}
+    doc_items = {}
+    for a, ck, item, helpers in obs.get("attrs", []):
+        if ck is not None and helpers:
+            s = obs["sing"].get(a)
+            doc_items[a] = {"observed_item_name": item if isinstance(item, str) else lib_str(item),
+                            "documented_item_name": s if (s and s != a) else a + "_item",
+                            "fallback_on_collision": a + "_item"}
+    expected = {"update", "transform", "reset"}
+    for a, ck, item, helpers in obs.get("attrs", []):
+        if helpers:
+            expected |= {f"{p}_{a}" for p in ("with", "update", "transform", "reset")}
+    for a, v in doc_items.items():
+        expected |= {f"{p}_{v['documented_item_name']}" for p in ("with", "update", "transform", "without")}
+    expected -= occupied
+    return {"observed_helper_names": observed, "documented_helper_names_absent_collisions": sorted(expected),
+            "only_observed": sorted(set(observed) - expected), "only_documented": sorted(expected - set(observed)),
+            "collection_attributes": doc_items}
+
+
+def with_history(desc, obs):
+    """the description with the classes built earlier in this process that share a name with it"""
+    mine = names_of(desc)
+    seen, hist = set(), []
+    for e in BUILT[: obs.get("hist_pos", 0)]:
+        if not (names_of(e) & mine):
+            continue
+        k = json.dumps(e, sort_keys=True)
+        if k not in seen:
+            seen.add(k)
+            hist.append(dict(json.loads(k), use=True))
+    if not hist:
+        return None
+    return dict(desc, earlier=hist + list(desc.get("earlier") or []))
+
+
+def report_failures(chk, descs, obss, bad):
+    """Every reported case is first re-observed in a fresh process (if it fails only after other
+    classes of this run, those classes become part of the case), then shrunk there."""
+    for i, code in [b for b in bad if b[1] == 9][:3]:
+        chk.violation("harness could not observe / encode a case: " + obss[i].get("harness_error", "")[-300:],
+                      {"desc": descs[i], "kind": "harness-error", "log": obss[i].get("harness_error")}, no_input=True)
+    order = sorted([b for b in bad if b[1] != 9],
+                   key=lambda b: (-b[1], 0 if (descs[b[0]].get("earlier") or descs[b[0]].get("later")) else 1,
+                                  len(descs[b[0]]["attrs"])))[:40]
+    if not order:
+        return
+    pool = []   # (desc, code, fresh observation)
+    b1, _, o1 = evaluate([descs[i] for i, _ in order], tag="f", use_fresh=True)
+    c1 = dict(b1)
+    rest = []
+    for k, (i, code) in enumerate(order):
+        if c1.get(k) == code:
+            pool.append((descs[i], code, o1[k]))
+        else:
+            rest.append((i, code))
+    if rest and len(pool) < 5:
+        hd = [(with_history(descs[i], obss[i]), code, i) for i, code in rest[:20]]
+        hd = [t for t in hd if t[0] is not None]
+        b2, _, o2 = evaluate([t[0] for t in hd], tag="f", use_fresh=True)
+        c2 = dict(b2)
+        for k, (d, code, i) in enumerate(hd):
+            if c2.get(k) == code:
+                pool.append((d, code, o2[k]))
+        if not pool:
+            for i, code in rest[:2]:
+                chk.violation("a case fails in this process but not when re-run in a fresh process, alone or after the "
+                              f"earlier classes sharing its names: attrs={[(a['name'], a['ty']) for a in descs[i]['attrs']]}",
+                              {"desc": descs[i], "code": code, "kind": "not-reproduced-fresh"}, no_input=True)
+            return
+    # one representative per (code, rejecting oracle parts), smallest first
+    groups = {}
+    pool = pool[:30]
+    whys = explain_many([(d, o) for d, code, o in pool])
+    for (d, code, o), why in zip(pool, whys):
+        why = why if code == 2 else []
+        key = (code, tuple(why), o.get("outcome"))
+        size = (len(d.get("earlier") or []) + len(d.get("later") or []), len(d["attrs"]))
+        if key not in groups or size < groups[key][0]:
+            groups[key] = (size, d, code)
+    reported = set()
+    for key in sorted(groups, key=lambda k: (-k[0], groups[k][0]))[:5]:
+        _, d, code = groups[key]
+        small = shrink(d, code)
+        o = fresh().run("observe", [small])[0]
+        why = explain(small, obs=o) if code == 2 else []
+        occ = [x["kind"] for x in small.get("occupied", [])]
+        sig = {"code": code, "parts": ",".join(why), "outcome": o["outcome"], "occupied": ",".join(occ)}
+        k2 = json.dumps(sig, sort_keys=True)
+        if k2 in reported:
+            continue
+        reported.add(k2)
+        hn = helper_names(small, o)
+        others = "".join(f"{side} class(es) {[[(a['name'], a['ty']) for a in e['attrs']] for e in small[side]]} "
+                         for side in ("earlier", "later") if small.get(side))
+        what = (("decoration violates the documented helper rules (" + ",".join(why) + ")") if code == 2
+                else "decoration differs from the model") + \
+            f": attrs={[(a['name'], a['ty'], a.get('decl', 'none')) for a in small['attrs']]} " + \
+            (f"independently decorated in the same process: {others}" if others else "") + \
+            f"occupied={small.get('occupied')} " + (f"same decorator object applied first to a class with attrs={[(a['name'], a['ty']) for a in small['prior']['attrs']]} " if small.get("prior") else "") + \
+            f"cfg={ {k: v for k, v in small['cfg'].items() if v not in (None, True)} } " + \
+            f"helper names only observed={hn['only_observed']} only documented={hn['only_documented']}"
+        chk.violation(what, {"desc": small, "code": code, "rejected_by": why,
+                             "class_sources": sources(small), "helper_names": hn,
+                             "observed": {k: o[k] for k in ("outcome", "attrs", "annots")},
+                             "generated": [p for p in o["after"] if p[1].startswith("G ")],
+                             "replay": "bin/check C16 --replay <this file>  (re-executed in a fresh process: the listed classes in the listed order)"},
+                      sig=sig, no_input=(code != 2))
+
+
 def main(tier, replay=None):
     chk = Check("C16", tier)
+    fresh()   # fork the pristine server before anything is decorated in this process
     if replay:
         r = json.load(open(replay))
+        if "hier_redeclare" in r:
+            res = fresh().run("redeclare", [r["hier_redeclare"]])[0]
+            fails = res.get("fails") or ([res["harness_error"]] if "harness_error" in res else [])
+            print(redeclare_source(r["hier_redeclare"]))
+            print("replay:", "still failing code=2" if fails else "passes now", fails[:5])
+            print("observed helper names:", json.dumps(res.get("observed")))
+            print("documented helper names:", json.dumps(res.get("expected")))
+            return 1 if fails else 0
         if "hier_collision" in r:
             fails = hier_collision_run(r["hier_collision"])
             print("replay:", "still failing code=2" if fails else "passes now", fails[:5])
@@ -858,15 +1514,16 @@ def main(tier, replay=None):
             print("replay:", "still failing code=2" if fails else "passes now", fails[:5])
             return 1 if fails else 0
         desc = fix_desc(r["desc"])
-        bad, logs, obss = evaluate([desc], tag="r")
+        bad, logs, obss = evaluate([desc], tag="r", use_fresh=True)
+        print(sources(desc))
         print("replay:", "still failing code=%s" % bad[0][1] if bad else "passes now", logs)
         print("observed now:", json.dumps({k: v for k, v in obss[0].items() if k in ("outcome", "attrs", "annots", "error")}, default=str))
-        print("generated:", [p for p in obss[0]["after"] if p[1].startswith("G ")])
+        print("generated:", [p for p in obss[0].get("after", []) if p[1].startswith("G ")])
+        print("helper names:", json.dumps(helper_names(desc, obss[0])) if "sing" in obss[0] else obss[0])
         return 1 if bad else 0
     chk.proofs()
     cases, found = generate(chk.rng, tier)
     import glob
-    import os
     corpus = []
     for f in sorted(glob.glob(os.path.join(os.path.dirname(os.path.dirname(os.path.abspath(__file__))), "corpus", "C16", "*.json"))):
         try:
@@ -876,26 +1533,7 @@ def main(tier, replay=None):
     cases = corpus + cases
     descs = [fix_desc(d) for d, _ in cases]
     bad, logs, obss = evaluate(descs)
-    reported = set()
-    for i, code in sorted(bad, key=lambda b: (-b[1], len(descs[b[0]]["attrs"])))[:10]:
-        small = shrink(descs[i], code)
-        why = explain(small) if code == 2 else []
-        o = observe(small)
-        occ = [x["kind"] for x in small.get("occupied", [])]
-        sig = {"code": code, "parts": ",".join(why), "outcome": o["outcome"], "occupied": ",".join(occ)}
-        key = json.dumps(sig, sort_keys=True)
-        if key in reported:
-            continue
-        reported.add(key)
-        what = (("decoration violates the documented helper rules (" + ",".join(why) + ")") if code == 2
-                else "decoration differs from the model") + \
-            f": attrs={[(a['name'], a['ty'], a.get('decl', 'none')) for a in small['attrs']]} " \
-            f"occupied={small.get('occupied')} " + (f"same decorator object applied first to a class with attrs={[(a['name'], a['ty']) for a in small['prior']['attrs']]} " if small.get("prior") else "") + f"cfg={ {k: v for k, v in small['cfg'].items() if v not in (None, True)} }"
-        chk.violation(what, {"desc": small, "code": code, "rejected_by": why,
-                             "observed": {k: o[k] for k in ("outcome", "attrs", "annots")},
-                             "generated": [p for p in o["after"] if p[1].startswith("G ")],
-                             "replay": "bin/check C16 --replay <this file>"},
-                      sig=sig, no_input=(code != 2))
+    report_failures(chk, descs, obss, bad)
     # hierarchies (implementation-only probe, oracle in Python)
     hier = hier_generate(chk.rng, tier)
     hier_failed = 0
@@ -926,6 +1564,26 @@ def main(tier, replay=None):
                           f"lazy={hc['lazy']}, parent used first={hc['use_parent_first']}): {fails[:3]}",
                           {"hier_collision": hc, "failures": fails, "code": 2, "replay": "bin/check C16 --replay <this file>"},
                           sig={"code": 2, "kind": "hierarchy_collision", "ty": hc["ty"], "lazy": hc["lazy"]})
+    # re-declaring subclasses / siblings (implementation-only probe, each in a fresh process)
+    rdc = redeclare_generate(chk.rng, tier)
+    rd_failed = 0
+    rd_seen = set()
+    for rc_, res in zip(rdc, fresh().run("redeclare", rdc)):
+        fails = res.get("fails") or ([res["harness_error"]] if "harness_error" in res else [])
+        if not fails:
+            continue
+        rd_failed += 1
+        sig = {"code": 2, "kind": "redeclare", "sibling": bool(rc_.get("sibling")), "extra": bool(rc_.get("extra"))}
+        key = json.dumps(sig, sort_keys=True)
+        if key in rd_seen or len(rd_seen) >= 2:
+            continue
+        rd_seen.add(key)
+        chk.violation(f"a spec subclass re-declaring the inherited collection attribute {rc_['attr']!r} "
+                      f"({rc_['ty']} -> {rc_['ty2']}{', a sibling class uses the name too' if rc_.get('sibling') else ''}): {fails[:3]}",
+                      {"hier_redeclare": rc_, "class_sources": redeclare_source(rc_), "failures": fails,
+                       "observed_helper_names": res.get("observed"), "documented_helper_names": res.get("expected"),
+                       "code": 2, "replay": "bin/check C16 --replay <this file>"},
+                      sig=sig, no_input="harness_error" in res)
     for lg in logs:
         chk.violation("correspondence evaluation failed: " + lg[-500:], {"kind": "coq-eval", "log": lg}, no_input=True)
     kinds, outcomes, nattrs, occk, tys, lazy = {}, {}, {}, {}, {}, {}
@@ -934,6 +1592,9 @@ def main(tier, replay=None):
     gen_names = 0
     for (d, k), o in zip(cases, obss):
         kinds[k] = kinds.get(k, 0) + 1
+        if "harness_error" in o:
+            outcomes["harness_error"] = outcomes.get("harness_error", 0) + 1
+            continue
         outcomes[str(o["outcome"])] = outcomes.get(str(o["outcome"]), 0) + 1
         nattrs[len(d["attrs"])] = nattrs.get(len(d["attrs"]), 0) + 1
         for x in d.get("occupied", []):
@@ -950,10 +1611,12 @@ def main(tier, replay=None):
         "correspondence": {"cases": len(cases), "disagreements": len(bad), "by_generator": kinds,
                            "hierarchy_probes": len(hier), "hierarchy_probe_failures": hier_failed,
                            "hierarchy_collision_probes": len(hcoll), "hierarchy_collision_failures": hcoll_failed,
+                           "redeclare_probes": len(rdc), "redeclare_probe_failures": rd_failed,
+                           "cases_with_earlier_or_later_classes": sum(1 for d, _ in cases if d.get("earlier") or d.get("later")),
                            "outcome_histogram": outcomes, "attribute_count_histogram": nattrs,
                            "occupied_kind_histogram": occk, "attribute_type_histogram": tys,
                            "lazy_histogram": lazy, "generated_entries_compared": gen_names,
-                           "first_use_lookups": sum(len(o["uses"]) for o in obss), **found},
+                           "first_use_lookups": sum(len(o.get("uses", [])) for o in obss), **found},
         "evaluations": len(cases), "distinct_nontrivial": min(len(distinct), nontrivial),
         "rule": "case = (attributes with type/declaration form, decorator arguments, names occupied in the body, instantiated?); "
                 "fixed classes and random classes x every generated name occupied as function/staticmethod/property/truthy value "
